@@ -10,8 +10,11 @@ positive, trace preserving, fidelity >= 0.99 against it; gate fidelity
 (|tr(U^+ V)|^2 + d)/(d(d+1)), one for U = V.  V is computed separately from Simulator
 amplitudes of the base circuit.
 
-Known findings (KNOWN_FINDINGS.txt): `li-choi-transpose-convention` (F9) and
-`mle-conjugate-gradient` (F8); see signature().
+History: on the pinned tree LI/MLE returned the Choi matrix of V^T (F9) and the MLE gradient was the
+conjugate of the Hilbert-Schmidt gradient (F8); both are repaired in /repo (00f76fe, daa21e7) and listed as
+`fixed:` in KNOWN_FINDINGS.txt.  No known-finding signature is left: signature() returns None, any
+mismatch for a non-symmetric or complex V is a VIOLATION.  The model keeps the old definitions as
+`*_pinned` only for the regression theorems of Properties/C16.v.
 """
 from __future__ import annotations
 
@@ -385,15 +388,6 @@ class C16:
                         aux["dist_start"] = float(np.abs(choi - start).max())
                         cv = lambda vv: [[float(np.real(x)), float(np.imag(x))] for x in vv]
                         res = {"ok": [cv(list(data.values())), cv(nv), cmat(g0)]}
-                        if n == 1 and aux["fidelity"] < 0.99:
-                            # the same data with the Hilbert-Schmidt gradient (conjugate of the code's)
-                            og = _mlemod.MLETomographyAlgorithm._gradient
-                            try:
-                                _mlemod.MLETomographyAlgorithm._gradient = lambda s, ch, nvv: np.conj(og(s, ch, nvv))
-                                fixed = _mlemod.MLETomographyAlgorithm(n).pgdb(data)
-                            finally:
-                                _mlemod.MLETomographyAlgorithm._gradient = og
-                            aux["fixed_fid_conjT"] = float(process_fidelity(fixed, np.conj(choi_from_unitary(v.T))))
             except Exception as e:  # noqa: BLE001
                 name = type(e).__name__
                 res = {"err": name if name in core.ERR_CODES.values() else "OtherError"}
@@ -527,6 +521,12 @@ class C16:
                 return f"MLE choi not trace preserving: partial trace deviates by {tp:.3g}"
             if aux["fidelity"] < 0.99:
                 return f"MLE fidelity against choi_from_unitary(V) is {aux['fidelity']:.4f} < 0.99"
+            # the same number without the library's process_fidelity: the reference is pure, so
+            # tr sqrt(sqrt(r) c sqrt(r)) = sqrt(<<V|c|V>>) / d
+            mc = np.array([[complex(*e) for e in row] for row in aux["choi"]])
+            indep = float(np.sqrt(max(np.real(v.flatten().conj() @ mc @ v.flatten()), 0.0))) / d
+            if indep < 0.99 or abs(indep - aux["fidelity"]) > 1e-4:
+                return f"MLE fidelity: independent value {indep:.6f} vs reported {aux['fidelity']:.6f} (bound 0.99)"
             return None
         if k == "gf":
             u = np.array([[complex(*e) for e in row] for row in aux["U"]])
@@ -538,40 +538,7 @@ class C16:
 
     # -------------------------------------------------- known-finding signatures
     def signature(self, c, rec):
-        """F9 `li-choi-transpose-convention`: the failing claim is the comparison with choi_from_unitary(V), the
-        result equals the Choi matrix of V^T (LI: entrywise 1e-6; MLE: process fidelity >= 0.99 and the likelihood has
-        a real optimum) while choi(V^T) != choi(V).
-        F8 `mle-conjugate-gradient`: the failing claim is the MLE fidelity bound, the estimate is still positive and trace
-        preserving, the gradient the code computes at the starting point is not real (so it differs from its
-        conjugate, the Hilbert-Schmidt gradient), choi(V^T) has non-real entries, and (one qubit) rerunning pgdb on
-        the same data with the conjugated gradient reaches the likelihood optimum conj(choi(V^T))."""
-        if not rec.get("oracle") or rec.get("diff"):
-            return None
-        k = c["kind"]
-        obs = rec["impl"]
-        if k not in ("li", "mle") or c.get("bad") or not isinstance(obs, dict) or "aux" not in obs:
-            return None
-        aux, msg = obs["aux"], rec["oracle"]
-        if aux.get("V") is None or aux["problems"] or "ok" not in obs["res"]:
-            return None
-        v = np.array([[complex(*e) for e in row] for row in aux["V"]])
-        ref = np.outer(v.flatten(), v.flatten().conj())
-        ref_t = np.outer(v.T.flatten(), v.T.flatten().conj())
-        conv_matters = float(np.abs(ref - ref_t).max()) > 1e-6
-        if k == "li":
-            choi = np.array([[complex(*e) for e in row] for row in obs["res"]["ok"]])
-            if msg.startswith("reference mismatch") and conv_matters and float(np.abs(choi - ref_t).max()) <= 1e-6:
-                return "li-choi-transpose-convention"
-            return None
-        if not msg.startswith("MLE fidelity against"):
-            return None
-        complex_opt = float(np.abs(np.imag(ref_t)).max()) > 1e-6
-        if complex_opt and aux.get("g0_imag", 0.0) > 1e-6:
-            if c["n"] == 1 and aux.get("fixed_fid_conjT", 0.0) < 0.99:
-                return None
-            return "mle-conjugate-gradient"
-        if (not complex_opt) and aux.get("g0_imag", 1.0) <= 1e-6 and conv_matters and aux.get("fidelity_T", 0.0) >= 0.99:
-            return "li-choi-transpose-convention"
+        """No known finding is left for C16 (F8 and F9 are repaired in /repo): every failure is a VIOLATION."""
         return None
 
     def nontrivial(self, c, obs):
